@@ -9,16 +9,13 @@ Local Open Scope N_scope.
 Lemma leaks_write sp o : is_read o = false -> leaks sp o = false.
 Proof. destruct o; try reflexivity; discriminate. Qed.
 
-Lemma op_wf_write o : is_read o = false -> op_wf o = true.
-Proof. destruct o; try reflexivity; discriminate. Qed.
-
 Lemma build_R : forall ops d sp,
   R d sp -> forallb (fun o => negb (is_read o)) ops = true ->
   R (build d ops) (fold_left sp_step ops sp).
 Proof.
   induction ops as [|o r IH]; intros d sp H Hw; [exact H|].
   cbn [forallb] in Hw. apply andb_true_iff in Hw. destruct Hw as [H1 Hr]. apply negb_true_iff in H1.
-  destruct (do_op_spec d sp o H (op_wf_write o H1) (leaks_write sp o H1)) as (d1 & rs & E & R1 & _).
+  destruct (do_op_spec d sp o H (leaks_write sp o H1)) as (d1 & rs & E & R1 & _).
   unfold build in *. cbn [fold_left]. rewrite E. cbn [fst]. apply IH; auto.
 Qed.
 
@@ -59,22 +56,19 @@ Proof.
 Qed.
 
 Lemma do_read_R d sp r :
-  R d sp -> read_nf r = true ->
+  R d sp ->
   exists d1 o, do_read d r = (d1, o) /\ R d1 sp /\ out_rel sp r o.
 Proof.
-  intros H Hnf. destruct r as [id|p ca kw du|p ca|p ca du|]; cbn [do_read read_nf out_rel] in *.
+  intros H. destruct r as [id|p ca kw du|p ca|p ca du|]; cbn [do_read out_rel] in *.
   - eexists; eexists; split; [reflexivity|]. auto.
-  - apply andb_true_iff in Hnf. destruct Hnf as [W1 W2]. apply negb_true_iff in W1.
-    destruct (cg_triples_spec d sp p ca kw du H W1) as (d1 & E & HR).
-    { destruct kw; cbn [no_foreign]; auto. }
+  - destruct (cg_triples_spec d sp p ca kw du H) as (d1 & E & HR).
     rewrite E. eexists; eexists; split; [reflexivity|]. auto.
-  - apply negb_true_iff in Hnf. unfold cg_quads.
-    destruct (cg_spoc_read d sp ca H Hnf) as (d1 & E & HR). rewrite E.
+  - unfold cg_quads.
+    destruct (cg_spoc_read d sp ca H) as (d1 & E & HR). rewrite E.
     eexists; eexists; split; [reflexivity|]. split; auto.
     fold (quads_of (st d1) p (eff_graph ca None)). do 2 f_equal.
     destruct HR as (Eq & Eo & _). apply quads_of_ext; auto.
-  - apply negb_true_iff in Hnf.
-    destruct (cg_contains_spec d sp p ca du H Hnf) as (d1 & E & HR).
+  - destruct (cg_contains_spec d sp p ca du H) as (d1 & E & HR).
     rewrite E. eexists; eexists; split; [reflexivity|]. auto.
   - pose proof H as (_ & _ & _ & _ & Hn & Hk & Hiff & _).
     unfold ds_graphs. destruct (is_ds d) eqn:Eds.
@@ -96,16 +90,15 @@ Proof.
 Qed.
 
 Lemma read_run_pure : forall rs d sp,
-  R d sp -> forallb read_nf rs = true ->
+  R d sp ->
   pure_run (snap_of d) (read_run d rs) = true /\ length (read_run d rs) = length rs.
 Proof.
-  induction rs as [|r rest IH]; intros d sp H Hnf; [split; reflexivity|].
-  cbn [forallb] in Hnf. apply andb_true_iff in Hnf. destruct Hnf as [N1 N2].
-  destruct (do_read_R d sp r H N1) as (d1 & o1 & E1 & R1 & O1).
-  destruct (do_read_R d1 sp r R1 N1) as (d2 & o2 & E2 & R2 & O2).
+  induction rs as [|r rest IH]; intros d sp H; [split; reflexivity|].
+  destruct (do_read_R d sp r H) as (d1 & o1 & E1 & R1 & O1).
+  destruct (do_read_R d1 sp r R1) as (d2 & o2 & E2 & R2 & O2).
   cbn [read_run]. rewrite E1, E2. cbn [pure_run length].
   rewrite (psnap_same_R d d1 sp H R1), (out_rel_same sp r o1 o2 O1 O2), (psnap_same_R d1 d2 sp R1 R2). cbn [andb].
-  destruct (IH d2 sp R2 N2) as [P L]. split; [|now rewrite L].
+  destruct (IH d2 sp R2) as [P L]. split; [|now rewrite L].
   (* the next read starts from d2, whose snapshot shows the same dataset as d1's *)
   clear - P R1 R2. revert P. generalize (read_run d2 rest). intros l.
   destruct l as [|[s f] l]; auto. cbn [pure_run]. intros P.
@@ -119,14 +112,13 @@ Proof.
   - apply (seteqb_spec _ N.eqb_spec). apply (seteqb_spec _ N.eqb_spec) in T2, Q2. intros x. rewrite (T2 x). apply Q2.
 Qed.
 
-Theorem spec_ok_model c : pwf c -> pkf c = 0 -> spec_ok c (model_obs c) = true.
+Theorem spec_ok_model c : pwf c -> spec_ok c (model_obs c) = true.
 Proof.
-  unfold pwf, pkf, spec_ok, model_obs. intros Hwf Hkf.
-  destruct (forallb read_nf (p_reads c)) eqn:Enf; [|discriminate].
+  unfold pwf, spec_ok, model_obs. intros Hwf.
   pose proof (build_R (p_build c) _ _ (R_init (p_ds c)) Hwf) as HR.
   set (d := build (ds_init (p_ds c)) (p_build c)) in *.
   set (sp := fold_left sp_step (p_build c) sp_init) in *.
-  destruct (read_run_pure (p_reads c) d sp HR Enf) as [P L].
+  destruct (read_run_pure (p_reads c) d sp HR) as [P L].
   cbn [fst snd]. rewrite P, L, Nat.eqb_refl, !andb_true_r.
   pose proof HR as (Eq & Eo & _ & Hn & _ & _ & Hiff & _).
   unfold snap_of. cbn [fst snd]. rewrite Eq, Eo. cbn [map]. rewrite app_nil_r.
@@ -139,22 +131,22 @@ Qed.
 Definition names (d : ds) (g : cid) : Prop := g = 0 \/ In g (known (st d)).
 
 Theorem read_pure d sp r :
-  R d sp -> read_nf r = true ->
+  R d sp ->
   quads (st (fst (do_read d r))) = quads (st d)
   /\ orphans (st (fst (do_read d r))) = orphans (st d)
   /\ (forall g, names (fst (do_read d r)) g <-> names d g).
 Proof.
-  intros H Hnf. destruct (do_read_R d sp r H Hnf) as (d1 & o & E & R1 & _). rewrite E. cbn [fst].
+  intros H. destruct (do_read_R d sp r H) as (d1 & o & E & R1 & _). rewrite E. cbn [fst].
   destruct H as (Eq & Eo & _ & _ & _ & _ & Hiff & _), R1 as (Eq' & Eo' & _ & _ & _ & _ & Hiff' & _).
   split; [congruence|]. split; [congruence|]. intros g. unfold names. now rewrite <- Hiff, <- Hiff'.
 Qed.
 
 Theorem read_repeatable d sp r :
-  R d sp -> read_nf r = true ->
+  R d sp ->
   pout_eqb (snd (do_read d r)) (snd (do_read (fst (do_read d r)) r)) = true.
 Proof.
-  intros H Hnf. destruct (do_read_R d sp r H Hnf) as (d1 & o1 & E1 & R1 & O1). rewrite E1. cbn [fst snd].
-  destruct (do_read_R d1 sp r R1 Hnf) as (d2 & o2 & E2 & R2 & O2). rewrite E2. cbn [snd].
+  intros H. destruct (do_read_R d sp r H) as (d1 & o1 & E1 & R1 & O1). rewrite E1. cbn [fst snd].
+  destruct (do_read_R d1 sp r R1) as (d2 & o2 & E2 & R2 & O2). rewrite E2. cbn [snd].
   exact (out_rel_same sp r o1 o2 O1 O2).
 Qed.
 
@@ -164,26 +156,20 @@ Theorem reachable_R b ops :
   R (build (ds_init b) ops) (fold_left sp_step ops sp_init).
 Proof. intros H. apply build_R; auto using R_init. Qed.
 
-(* ---- the reads that are NOT pure ---- *)
-Lemma foreign_read_refuted :
-  exists d r, read_nf r = false /\ quads (st (fst (do_read d r))) <> quads (st d).
-Proof.
-  exists (ds_init true), (RdContains (Some 12, Some 4, Some 12) (CQuad (Some (GForeign 1 [(12, 4, 12)]))) false).
-  split; [reflexivity|]. vm_compute. discriminate.
-Qed.
+(* ---- what is left of the writes on read paths ---- *)
+(* with the _graph of before the "fix:" commit for F19, a membership test handed
+   a Graph of another store copied it in; with the repaired one it does not *)
+Lemma hist_foreign_read_refuted :
+  exists d c ts,
+    quads (st (fst (cg_graph_hist d (Some (GForeign c ts))))) <> quads (st d)
+    /\ quads (st (fst (do_read d (RdContains (pat_of (12, 4, 12)) (CQuad (Some (GForeign c ts))) false)))) = quads (st d).
+Proof. exists (ds_init true), 1, [(12, 4, 12)]. split; [vm_compute; discriminate|reflexivity]. Qed.
 
 (* at the level of the store's own registry, Dataset.graphs() is a write: the
    first call registers the default graph (invisible through graphs() itself) *)
 Lemma graphs_registers_default_refuted :
-  exists d, read_nf RdGraphs = true /\ known (st (fst (do_read d RdGraphs))) <> known (st d).
-Proof. exists (ds_init true). split; [reflexivity|]. vm_compute. discriminate. Qed.
-
-Definition w_f19 : pcase :=
-  {| p_ds := true; p_build := [OAdd (1, 3, 2) (CQuad (Some (GId 1)))];
-     p_reads := [RdContains (Some 12, Some 4, Some 12) (CQuad (Some (GForeign 1 [(12, 4, 12)]))) false] |}.
-
-Lemma spec_ok_refuted : exists c, pwf c /\ pkf c = 1 /\ spec_ok c (model_obs c) = false.
-Proof. exists w_f19. repeat split; vm_compute; reflexivity. Qed.
+  exists d, known (st (fst (do_read d RdGraphs))) <> known (st d).
+Proof. exists (ds_init true). vm_compute. discriminate. Qed.
 
 (* reading of the checker *)
 Lemma psnap_same_reading a b :
